@@ -123,14 +123,16 @@ def model(cx, pairs):
     Aref, bref = cx.ref_model(pairs)
     s = np.linalg.svd(Aref, compute_uv=False)
     cond = s[0] / s[-1] if s[-1] > 0 else float("inf")
-    if cond > 1e4:
+    if cond > 1e5:
         raise AssertionError("harness: complete tester set too ill-conditioned for a meaningful comparison (cond %.3g): %s" % (
             cond, K.cfg_tag(cx.cfg)))
     return Aref, bref, cond
 
 
 def tol_for(cond):
-    return 1e-9 * max(1.0, cond * cond / 1e6)
+    """the estimator forms (A^T A)^-1 explicitly: rounding errors grow like eps * cond(A)^2; 1e-13 * cond^2 keeps a
+    margin of about 450 eps cond^2 (calibrated: worst observed 5 eps cond^2 over seeds 0..4), never below 1e-9"""
+    return 1e-9 * max(1.0, cond * cond / 1e4)
 
 
 def normal_eq_residual(M, b, v, f):
@@ -320,7 +322,7 @@ def ex_exact(out, seen, cx, params):
                 if not ok:
                     K.fail_once(out, seen, "consistency_check:%sraises:%s" % (cls_of(cx, pairs), cx.tomo), "%s true=%s: %s" % (
                         where, oname, A.fmt_exc(res)))
-                elif not (res[0] <= max(1e-16, tol * tol)):
+                elif not (res[0] <= max(1e-16, len(x) * tol * tol)):
                     K.fail_once(out, seen, "consistency_check:value-not-zero:%s" % tag, "%s true=%s: %r" % (where, oname, res[0]))
                 else:
                     out.count("consistency_check_ok")
@@ -485,11 +487,16 @@ def ex_guard(out, seen, cx, params):
                 out.count("guard_passed")
                 s = np.linalg.svd(Aref, compute_uv=False)
                 v = np.asarray(r.estimated_var, float)
-                if v.shape != v0.shape or np.abs(v - v0).max() > tol_for(s[0] / s[-1]):
+                if s[0] / s[-1] > 1e5:
+                    out.count("guard_passed_ill_conditioned")       # barely complete: recovery not comparable
+                elif v.shape != v0.shape or np.abs(v - v0).max() > tol_for(s[0] / s[-1]):
                     K.fail_once(out, seen, "estimated_var:exact-data-not-recovered:interior:%s:flag=%s" % (cx.tomo, cx.flag),
                                 "%s: deviation %.3g" % (where, np.abs(v - v0).max() if v.shape == v0.shape else -1))
         else:
-            if ok:
+            okA, matA = A.call(qt.calc_matA)
+            if ok and rows >= nvar and okA and K.rank_verdict_in_band(matA, nvar):
+                out.count("guard_verdict_at_noise_level")          # numpy's rank threshold vs a 1e-16 singular value
+            elif ok:
                 v = np.asarray(r.estimated_var, float)
                 K.fail_once(out, seen, "calc_estimate:incomplete-testers-not-rejected:%s:%s" % (shape_class, cx.tomo),
                             "%s: matA %dx%d reference rank %d; returned an estimate with max |v| = %.3g, |v - true| = %.3g" % (
